@@ -20,6 +20,11 @@ CHECKS = {
     category="model_checking", design_ref="4 C14",
     text="TLC enumerates every ordered attribute-subset pair (sizes 2,3,1; thorough adds a 4th attribute) x 22 operations x every argument and checks the addressing laws (layout, merge order, partition, requested order, bijection); every transition is executed on real Factor/CliqueVector objects with distinct cell values and compared cell by cell and axis by axis (== for integer operations); all in-place sequences of length <= 2 (thorough 3) on two objects are replayed step by step against the integer store model.",
     note="Scalar functions (exp, log, logaddexp, logsumexp) are evaluated by the driver with math/numpy; the spec decides which cells meet. Views returned by transpose/condition/expand are out of scope for in-place checks."),
+ "C15": dict(
+    technique="TLA+ specs of the domain algebra and of weighted contingency tables (spec/data/DomainAlgebra.tla, Contingency.tla) checked exhaustively by TLC on small carriers; every state replayed on Domain / Dataset with ==",
+    category="model_checking", design_ref="4 C15",
+    text="TLC checks the merge/complement/canonical/size/sort/axes laws for every pair of domains over 4 attributes (sizes 2,3,1,2; all attribute orders) and the commutation law Vector(project(D,s)) = transpose(marg(Vector(D))) for every record bag of size <= 3 (thorough 4) x weights x every projection sequence; each enumerated state is executed on the real Domain/Dataset (frame columns permuted, with/without an unused column, ndarray weights, list/tuple/str spellings) and compared with ==.",
+    note="Dataset projection onto the empty attribute list is not exercised. pandas/numpy histogramdd are observed, not modelled."),
 }
 
 NOT_YET = "check not built yet (work in progress, see DESIGN.md section 8 build order)"
